@@ -6,28 +6,21 @@ PRES_NOTE = ("Trusted: Coq 8.16.1 kernel (full .vo build, vm_compute, no native_
              "captured from the real run (its well-formedness is a boolean hypothesis evaluated on every captured output). "
              "The hand-written model is tied to /repo by differential execution (function level, synthetic code models, end to end).")
 
-CHECKS = {
-    "C01": {"technique": "Coq proof (induction over file items / regenerations) + differential correspondence model vs code",
-            "text": "Theorems C01_fixed_point / C01_iterated / C01_tree_fixed_point: for every fresh code model satisfying the boolean "
-                    "well-formedness, every user text and every number of regenerations the model of preserve+createoutput rewrites identical "
-                    "bytes. The model is executed against the real generators on every run.",
-            "note": PRES_NOTE},
-    "C02": {"technique": "Coq proof (exact characterisation of emplace/collect) + differential correspondence",
-            "text": "Theorems C02_evolution / C02_tree_evolution / C02_chain_step_shape: regenerated file = fresh file of the new model with "
-                    "the old block of the same cleaned name under each tag; nothing else depends on the old model.",
-            "note": PRES_NOTE},
-    "C03": {"technique": "Coq proof (LostCode characterisation, path algebra, unreadable files) + differential correspondence",
-            "text": "Theorems C03_lost_complete_and_only_lost / C03_lost_location / C03_unreadable_untouched over the model of the repaired code.",
-            "note": PRES_NOTE + " Text-mode decodability is decided by the harness (strict UTF-8) and passed to the model as Unreadable."},
-    "C04": {"technique": "Coq proof (frame lemma over the per-file fold) + differential correspondence on adversarial file names",
-            "text": "Theorem C04_confined: what is written for a file depends on that file's fresh lines and old content only, for all file names; "
-                    "C04_exactly_once for whole directories.",
-            "note": PRES_NOTE},
-    "C18": {"technique": "Coq proof (replace-mode emplace = sync specification; idempotence) + differential correspondence",
-            "text": "Theorems C18_shared_replaced_rest_untouched / C18_idempotent over the model of FilePreservationSyncUtil; 'A is not modified' "
-                    "is observed on every real run (partial: not a Coq statement).",
-            "note": PRES_NOTE},
-}
+def collect_checks():
+    """{property id: MANIFEST dict} from every harness/props/cNN.py that defines MANIFEST."""
+    import importlib
+    import os
+    res = {}
+    d = os.path.join(os.path.dirname(os.path.abspath(__file__)), "props")
+    for f in sorted(os.listdir(d)):
+        if f.startswith("c") and f.endswith(".py") and f[1:3].isdigit():
+            m = importlib.import_module("harness.props." + f[:-3])
+            if hasattr(m, "MANIFEST"):
+                c = dict(m.MANIFEST)
+                c.setdefault("category", getattr(m, "LEVEL", "proof"))
+                res[f[:-3].upper()] = c
+    return res
+
 
 NOT_APPLICABLE = {
     "C05": "not built yet in this round (planned: crash model of the output stage)",
@@ -48,11 +41,11 @@ NOT_APPLICABLE = {
 }
 
 ENGINES = [
-    {"name": "coq-kv", "path": "/verif/coq", "serves_properties": sorted(CHECKS),
+    {"name": "coq-kv", "path": "/verif/coq", "serves_properties": [],
      "kind_free_text": "Coq 8.16.1 development (-Q theories KV): Lib/ Model/ (executable Gallina models) Gen/ (regenerated from /repo on every run) "
                        "Proofs/ Props/ (one file per property: statements closed by exact + Print Assumptions); extracted to build/kmodel (OCaml) "
                        "for the correspondence check"},
-    {"name": "harness", "path": "/verif/harness", "serves_properties": sorted(CHECKS),
+    {"name": "harness", "path": "/verif/harness", "serves_properties": [],
      "kind_free_text": "Python: translators (fail closed), generators, differential drivers, spec-side oracles, searchers, evidence writer"},
 ]
 
